@@ -450,7 +450,7 @@ func guarded(w *ndWriter, what string, f func() (int, error)) (int, error) {
 		w.Write(Ev{"e": "crash", "msg": fmt.Sprintf("Conn.%s does not return (%v on a transport that never blocks: spinning or deadlocked)", what, watchdogLimit())})
 		w.Write(Ev{"e": "end"})
 		w.Close()
-		os.Exit(0)
+		exitNow()
 	}
 	return 0, nil
 }
